@@ -166,5 +166,9 @@ def main(run_fn, pid, level="model_checking"):
     except InfraError as e:
         print("INFRASTRUCTURE-ERROR property=%s: %s" % (pid, e), flush=True)
         traceback.print_exc()
+        if chk.violations:
+            # real executions rejected by the contract were already collected before the tooling failed: report them
+            chk.note("the run ended early with a tooling error: %s" % str(e)[:300])
+            return chk.finish()
         return 2
     return chk.finish()
